@@ -586,7 +586,21 @@ def r7(ctx):
         if o["status"] != "holds":
             ctx.violations.append(o)
     ctx.analysed_bodies |= sub.analysed_bodies
-    ctx.floor("C05.R7", 7)
+    # the other store call of an insert, the prune: it may drop index ids only of the records it removed (shared with C02.R1)
+    from . import C02
+    sub2 = type(ctx)(ctx.prop, ctx.tier, ctx.facts, ctx.cfg)
+    C02.r1(sub2)
+    for o in sub2.obligations:
+        if "index-ids-of-surviving-records-kept" not in o["key"]:
+            continue
+        o = dict(o)
+        o["key"] = o["key"].replace("C02.R1", "C05.R7")
+        o["rule"] = "C05.R7"
+        ctx.obligations.append(o)
+        if o["status"] != "holds":
+            ctx.violations.append(o)
+    ctx.analysed_bodies |= sub2.analysed_bodies
+    ctx.floor("C05.R7", 10)
 
 
 def r8(ctx):
